@@ -10,7 +10,7 @@
  * @prep sed contrib/seekable_format/zstdseek_decompress.c zseek_ld36.c define\s+SEEKABLE_BUFF_SIZE\s+ZSTD_BLOCKSIZE_MAX define\x20SEEKABLE_BUFF_SIZE\x2036
  * @link lib/common/zstd_common.c lib/common/error_private.c
  * @mem loop
- * @cbmc --unwind 9 --unwindset __builtin_memcpy.0:38,__builtin_memmove.0:38,__builtin_memmove.1:38,harness.0:80,harness.1:10
+ * @cbmc --unwind 9 --unwindset __builtin_memcpy.0:38,__builtin_memmove.0:38,__builtin_memmove.1:38,harness.0:100,harness.1:10
  * @timeout 600
  * @memgb 6
  * @instance f9 tier=thorough -DFS=9
